@@ -38,6 +38,16 @@ def gen_big_files(rng) -> dict:
     total = rng.randint(600, 3000)
     cuts = sorted(rng.sample(range(1, total), nfiles - 1)) if nfiles > 1 else []
     counts = [b - a for a, b in zip([0] + cuts, cuts + [total])]
+    if rng.random() < 0.25:
+        # an observation cut into files of (almost) equal length - what a recorder with a fixed file size writes: the
+        # lengths differ by a sample or two in a hundred thousand (anything that compares lengths approximately, or
+        # assumes them equal, is decided here), the last file is short
+        nbits, nchans = 1, rng.choice([8, 16])
+        n0 = rng.randint(100000, 140000)
+        counts = [n0, n0 + rng.choice([1, 1, 2, 0]), rng.randint(1, 3000)]
+        if rng.random() < 0.3:
+            counts.insert(2, n0 - rng.choice([0, 1]))
+            counts = counts[:3]
     return {"nbits": nbits, "nchans": nchans, "nsamps": counts, "pad": filgen.gen_pads(rng, len(counts)),
             "vseed": rng.randrange(1 << 16), "mode": "bits", "big": True}
 
